@@ -36,6 +36,9 @@ pub fn run(a: &Args) {
     for case in 0..a.n {
         let nthreads = match rng.below(5) { 0 => 0, 1 => 1, 2 => rng.range(2, 6), 3 => rng.range(7, 31), _ => rng.range(1, 12) } as usize;
         let mut scen = Scenario { threads: (0..nthreads).map(|_| ThreadSpec { kind: Kind::Block, sp_off: 0x800, pages: 2, name: gen_name(&mut rng), at: None }).collect(), lines: vec![] };
+        // one fixed target per run: EVERY thread, the main one included, carries the empty name (readable, and empty)
+        if case == 2 { for t in scen.threads.iter_mut() { t.name = Some(vec![]); } scen.lines.push("mainname 00".into()); }
+        else if rng.chance(1, 6) { scen.lines.push(format!("mainname {}", "main thr".bytes().map(|b| format!("{b:02x}")).collect::<String>())); }
         // threads that are enumerated (and named) but dropped when they are suspended (null stack pointer), anywhere but last:
         // the names of the threads after them must stay with their own ids
         if nthreads >= 2 && (case % 3 == 1) { for _ in 0..rng.range(1, 2) { let pos = rng.below(scen.threads.len() as u64 - 1) as usize; scen.threads[pos].kind = Kind::NullSp; if scen.threads[pos].name.is_none() { scen.threads[pos].name = Some(b"parked".to_vec()); } } out.count("shape.dropped_thread_in_the_middle"); }
